@@ -34,11 +34,11 @@ Fixpoint corr_walk (st : hst) (steps : list (hop * c10obs)) : bool :=
 Definition spec_answer (pre : list hop) (o : hop) : option (list tuple) :=
   match o with
   | SQuery s _ | SCount s _ => snd (hstep (hrun hinit (view_of s pre)) o)
-  | PQuery _ => snd (hstep (hrun hinit (filter is_pers pre)) o)
+  | PQuery _ _ => snd (hstep (hrun hinit (filter is_pers pre)) o)
   | _ => None
   end.
 Definition is_query (o : hop) : bool :=
-  match o with SQuery _ _ | SCount _ _ | PQuery _ => true | _ => false end.
+  match o with SQuery _ _ | SCount _ _ | PQuery _ _ => true | _ => false end.
 
 Fixpoint prop_walk (pre : list hop) (steps : list (hop * c10obs)) : bool :=
   match steps with
